@@ -698,13 +698,14 @@ def gen_callback(cx, cbt, ct, abi, pname):
         sig_ret = " -> %s" % RT
     else:
         retexpr, sig_ret = "", ""
-    fn_text = ("    #[cfg(kani)]\n    unsafe extern \"C\" fn %s_run(%s)%s { vs::CB_CALLS += 1; assert!(_data as usize == 0x5150, \"C01: callback data pointer\"); %s %s }\n"
-               "    #[cfg(kani)]\n    unsafe extern \"C\" fn %s_destroy(_data: %s) { vs::CB_DESTRUCTS += 1; }\n"
+    fn_text = ("    #[cfg(kani)]\n    unsafe extern \"C\" fn %s_run(%s)%s { vs::CB_CALLS += 1; assert!(_data as usize == vs::CB_COOKIE, \"C01: callback data pointer\"); %s %s }\n"
+               "    #[cfg(kani)]\n    unsafe extern \"C\" fn %s_destroy(_data: %s) { vs::CB_DESTRUCTS += 1; assert!(_data as usize == vs::CB_COOKIE, \"C03: destructor must receive the callback's data pointer\"); }\n"
                % (v, ", ".join(args), sig_ret, " ".join(logs), retexpr, v, mtype(cm, fn.params[0], cx.names)))
     MT = mtype(cm, ct, cx.names)
     setup = ["vs::CB_RET = kani::any();",
+             "vs::CB_COOKIE = if kani::any() { 0 } else { 0x5150 };   // the cookie is opaque to Rust: NULL is as good as any other value",
              "let %s_with_destructor: bool = kani::any();" % v,
-             "let %s = %s { data: 0x5150usize as *mut core::ffi::c_void, run_callback: Some(%s_run), destructor: if %s_with_destructor { Some(%s_destroy) } else { None } };"
+             "let %s = %s { data: vs::CB_COOKIE as *mut core::ffi::c_void, run_callback: Some(%s_run), destructor: if %s_with_destructor { Some(%s_destroy) } else { None } };"
              % (v, MT, v, v, v)]
     post = ["assert!(vs::CB_CALLS == 1, \"C01: the callback must be run exactly once\");",
             "assert!(vs::same(vs::cb_seen(), vs::cb_sent()), \"C01: arguments seen by the foreign callback differ from what Rust passed\");",
